@@ -462,6 +462,8 @@ class FnEval:
         """Contract value a parameter/field declares through its name and type."""
         side = name_side(name)
         if side is None:
+            if name == "len" and (ty or "").replace("&mut ", "").replace("&", "").strip() == "usize":
+                return S(LEN, "B")
             return None
         t = ty or ""
         tn = t.replace("&mut ", "").replace("&", "").strip()
@@ -1352,6 +1354,9 @@ class FnEval:
 
         if path == "std::ops::Try::branch":
             return a0 if a0 is not None else ANY
+        if isinstance(a0, tuple) and a0 and a0[0] == "R" and name == "len":
+            ss = sides_of(a0)
+            return S(LEN, list(ss)[0] if len(ss) == 1 else None)
         if path == "std::ops::FromResidual::from_residual":
             return ANY
         # --- iterator protocol
